@@ -8,12 +8,14 @@
 /* ghost indices (universally quantified positions) */
 GHOST(unsigned long, g)
 GHOST(unsigned long, g2)
+GHOST(unsigned long, g3)
 GHOST(unsigned long, QRS)            /* reshape: the inferred extent numel / prod(known extents) (0 if that product is 0) */
 /* ghost traces */
 GHOST_ARR(unsigned long, PS, 10)   /* PS[i] = src[0]*...*src[i-1]                        (left fold as in index::product)   */
 GHOST_ARR(unsigned long, PD, 10)   /* PD[j] = product of (size_t)dst[t], t<j, dst[t]!=-1 (left fold, PD[0]=1)               */
 GHOST_ARR(int, CN, 10)             /* CN[j] = #{t<j : dst[t]==-1}                                                            */
 GHOST_ARR(int, NB, 10)             /* NB[j] = 1 iff no dst[t], t<j, is < -1 (used by the loop contract of the repaired shape_reshape) */
+GHOST_ARR(unsigned long, SQ, 10)   /* SQ[j] = #{t<j : shape[t] != 1}  (squeeze: output position of the entries that are kept)                */
 GHOST_ARR(int, VT, 10)             /* VT[j] = 1 iff every axes[t], t<j, lies in [-ndim, ndim)                                */
 
 #define C03_INT_MAX 2147483647L
@@ -276,6 +278,92 @@ static inline int pre_verif_shape_reshape_safe(sv_t src, svi_t dst)
 static inline int post_verif_shape_reshape_safe(sv_t src, svi_t dst, opt_svi_t ret)
 { return IMPLIES(OPT_HAS(ret), SV_LEN(OPT_VAL(ret)) == SV_LEN(dst)); }
 /* the value count_negative_reshape returns as "product of the known extents" (0 for an empty target: code quirk) */
+/* ------------------------------------------------------------------ expand_dims / squeeze / atleast_nd / flatten */
+/* numpy.expand_dims(a, axis).shape: a 1 inserted at position axis mod (ndim+1) */
+#define EXPAND_AT(shape, a, k) ((k) == (a) ? 1UL : ((k) < (a) ? SV_AT(shape, k) : SV_AT(shape, (k) - 1UL)))
+static inline int pre_verif_shape_expand_dims(sv_t shape, int axis)
+{ return SV_LEN(shape) <= CAP && AXIS_OK(axis, SV_LEN(shape) + 1UL); }
+static inline int post_verif_shape_expand_dims(sv_t shape, int axis, sv9_t ret)
+{
+  unsigned long n = SV_LEN(shape) + 1UL, a = NORM(axis, SV_LEN(shape) + 1UL);
+  return SV_LEN(ret) == n && IMPLIES(g < n, SV_AT(ret, g) == EXPAND_AT(shape, a, g));
+}
+/* numpy.squeeze(a).shape: the extents != 1, in order (extents >= 1 as in the property's quantifier) */
+static inline int trace_SQ(sv_t shape)
+{
+  int ok = GHOST_DEF(SQ[0], 0UL);
+  for (unsigned long t = 0; t < CAP; t++)
+    ok = ok && GHOST_DEF(SQ[t + 1], SQ[t] + ((t < SV_LEN(shape) && SV_AT(shape, t) != 1UL) ? 1UL : 0UL));
+  return ok;
+}
+static inline int all_extents_ge1(sv_t shape)
+{
+  int ok = 1;
+  for (unsigned long t = 0; t < CAP; t++)
+    if (t < SV_LEN(shape) && SV_AT(shape, t) < 1UL) ok = 0;
+  return ok;
+}
+static inline unsigned long spec_count_non1(sv_t shape)
+{
+  unsigned long c = 0UL;
+  for (unsigned long t = 0; t < CAP; t++)
+    if (t < SV_LEN(shape) && SV_AT(shape, t) != 1UL) c++;
+  return c;
+}
+static inline int pre_verif_shape_squeeze(sv_t shape)
+{ return SV_LEN(shape) <= CAP && all_extents_ge1(shape) && trace_SQ(shape); }
+static inline int post_verif_shape_squeeze(sv_t shape, hyb_t ret)
+{
+  return HN_LEN(ret) == SQ[SV_LEN(shape)] && HN_LEN(ret) == spec_count_non1(shape)
+      && IMPLIES(g < SV_LEN(shape) && SV_AT(shape, g) != 1UL, SQ[g] < HN_LEN(ret) && HN_AT(ret, SQ[g]) == SV_AT(shape, g));
+}
+/* atleast_1d / atleast_2d (numpy) and nmtools' atleast_nd: ones are prepended until the rank is nd */
+static inline int atleast_post(sv_t shape, unsigned long nd, hyb_t ret)
+{
+  unsigned long n = SV_LEN(shape), L = n > nd ? n : nd, d = L - n;
+  return HN_LEN(ret) == L && IMPLIES(g < L, HN_AT(ret, g) == (g < d ? 1UL : SV_AT(shape, g - d)));
+}
+static inline int pre_verif_shape_atleast_1d(sv_t shape) { return SV_LEN(shape) <= CAP; }
+static inline int post_verif_shape_atleast_1d(sv_t shape, hyb_t ret) { return atleast_post(shape, 1UL, ret); }
+static inline int pre_verif_shape_atleast_2d(sv_t shape) { return SV_LEN(shape) <= CAP; }
+static inline int post_verif_shape_atleast_2d(sv_t shape, hyb_t ret) { return atleast_post(shape, 2UL, ret); }
+static inline int pre_verif_shape_atleast_3d(sv_t shape) { return SV_LEN(shape) <= CAP; }
+static inline int post_verif_shape_atleast_3d(sv_t shape, hyb_t ret) { return atleast_post(shape, 3UL, ret); }
+/* flatten: the single extent is the element count */
+static inline int pre_verif_shape_flatten(sv_t shape) { return SV_LEN(shape) <= CAP && trace_PS(shape); }
+static inline int post_verif_shape_flatten(sv_t shape, arr1_t ret)
+{ return ARR_AT(ret, 0) == PS[SV_LEN(shape)] && ARR_AT(ret, 0) == spec_numel(shape); }
+
+/* ------------------------------------------------------------------ swapaxes / moveaxis -> transpose axes */
+/* numpy.swapaxes(a, axis1, axis2) == transpose(a, axes) with axes = identity with the two (normalised) positions exchanged */
+static inline int pre_verif_swapaxes_to_transpose(unsigned long dim, int axis1, int axis2)
+{
+  return 1UL <= dim && dim <= CAP && AXIS_OK(axis1, dim) && AXIS_OK(axis2, dim)
+      && GHOST_DEF(g2, NORM(axis1, dim)) && GHOST_DEF(g3, NORM(axis2, dim));
+}
+static inline int post_verif_swapaxes_to_transpose(unsigned long dim, int axis1, int axis2, sv_t ret)
+{
+  unsigned long a1 = NORM(axis1, dim), a2 = NORM(axis2, dim);
+  return SV_LEN(ret) == dim && IMPLIES(g < dim, SV_AT(ret, g) == (g == a1 ? a2 : (g == a2 ? a1 : g)));
+}
+/* numpy.moveaxis(a, source, destination) (scalar axes) == transpose(a, order) with
+ *   order = [n for n in range(ndim) if n != source]; order.insert(destination, source)      (numpy/core/numeric.py) */
+#define MOVEAXIS_REST(j, s) ((j) < (s) ? (j) : (j) + 1UL)
+#define MOVEAXIS_AT(k, s, d) ((k) == (d) ? (s) : MOVEAXIS_REST((k) < (d) ? (k) : (k) - 1UL, s))
+static inline int pre_verif_moveaxis_to_transpose(sv_t shape, int source, int destination)
+{ return SV_LEN(shape) <= CAP && GHOST_DEF(g2, g >= 1UL ? g - 1UL : 0UL); }
+static inline int post_verif_moveaxis_to_transpose(sv_t shape, int source, int destination, opt_sv_t ret)
+{
+  unsigned long n = SV_LEN(shape);
+  int ok = AXIS_OK(source, n) && AXIS_OK(destination, n);
+  return (OPT_HAS(ret) != 0) == (ok != 0)
+      && IMPLIES(ok, SV_LEN(OPT_VAL(ret)) == n
+                  && IMPLIES(g < n, SV_AT(OPT_VAL(ret), g) == MOVEAXIS_AT(g, NORM(source, n), NORM(destination, n)) && SV_AT(OPT_VAL(ret), g) < n));
+}
+/* guarded ghost positions for loop-entry snapshots */
+#define GI(k) ((k) < CAP ? (k) : 0UL)
+#define GIM1(k) (((k) >= 1UL && (k) <= CAP) ? (k) - 1UL : 0UL)
+
 #define PDK(m) ((m) == 0UL ? 0UL : PD[m])
 /* inputs on which `src_numel % dst_numel` is evaluated with dst_numel == 0 (reshape.hpp:130) */
 #define RESHAPE_DIV0(src, dst) (CN[SV_LEN(dst)] <= 1 && PDK(SV_LEN(dst)) == 0UL && (CN[SV_LEN(dst)] == 1 || PS[SV_LEN(src)] == 0UL))
